@@ -46,7 +46,7 @@ def _lattice(tier):
                 chk = checks[(i + 2 * j) % 3]
                 cxx = "clang++" if (i * 4 + j) % 5 == 3 else "g++"
                 cfgs.append(Config(isa=isa, std=std, opt=opt, cxx=cxx, **chk))
-        cfgs += [Config(isa=isa, defs=(m,)) for isa, m in MACROS[::2]]
+        cfgs += [Config(isa=isa, defs=(m,)) for isa, m in [MACROS[1]] + MACROS[::2]]
     else:
         for isa in ALL_ISAS:
             for std in ("14", "17"):
